@@ -202,6 +202,21 @@ def gen_cases(seed, chunk, n, tier):
                             break
                     if orc is None and scalar_of(env2["n1"]) != scalar_of(env2["n2"]):
                         orc = "<x|x> depends on the operand order"
+                    if orc is None and nd == 1 and applicable:
+                        # the same inner product through the `@` entry point, both operand orders
+                        for nm, val in (("c @ x", env2["c"] @ x), ("x @ c", x @ env2["c"]), ("d @ x", env2["d"] @ x)):
+                            got = complex(val)
+                            if got != want:
+                                orc = f"<x|x> via {nm} = {got}, but sum |x|^2 = {want} (phase_dual={pd}, parity={x.parity})"
+                                break
+                    if orc is None:
+                        # the in-place adjoint / conjugate with the same options equals the out-of-place one
+                        for opn, ref in (("dagger", env2["d"]), ("conj", env2["c"])):
+                            z = x.copy()
+                            r = getattr(z, opn)(phase_dual=pd, inplace=True)
+                            if _val(z) != _val(ref) or _val(r) != _val(ref):
+                                orc = f"{opn}(phase_dual={pd}, inplace=True) differs from the out-of-place result"
+                                break
             else:
                 pd = rng.random() < 0.5
                 rev = list(range(nd))[::-1]
